@@ -33,4 +33,5 @@ for P in C07 C08; do
     if cmp -s "$OUT/a/traces.txt" "$OUT/b/traces.txt"; then echo "$P $F: $(wc -l < "$OUT/a/traces.txt") runs x 2 executions: identical"; else echo "$P $F: DIFFERENT"; diff "$OUT/a/traces.txt" "$OUT/b/traces.txt" | head -5; fail=1; fi
   done
 done
+python3 "$V/bin/determinism_xzsim.py" 150 $SEED || fail=1
 exit $fail
